@@ -239,9 +239,10 @@ def label(b):
 
 
 class Frame:
-    def __init__(self, kind, opi):
+    def __init__(self, kind, opi, parent=None):
         self.kind = kind
         self.opi = opi
+        self.parent = parent
         self.macros = {}  # key -> binding
         self.pragma = None
         self.ever = set()
@@ -263,6 +264,7 @@ def build(case, prefix_filtered=False):
     at = []  # per op: dict(level, stack snapshot ...) for the second phase
     pending_local = []  # (opi, frames) for eval-local / snap ops: safety decided after the walk
     universe = set(BASE)
+    frames = []  # every macro scope of the history
 
     def pragma_on():
         for d, f in enumerate(reversed(stack)):
@@ -300,7 +302,8 @@ def build(case, prefix_filtered=False):
             blocks.append(real)
             classes.add("scope:" + op[1] + ("@module" if len(stack) == 1 else "@nested"))
             if real:
-                stack.append(Frame(op[1], opi))
+                stack.append(Frame(op[1], opi, stack[-1]))
+                frames.append(stack[-1])
         elif k == "close":
             if blocks.pop():
                 f = stack.pop()
@@ -360,18 +363,28 @@ def build(case, prefix_filtered=False):
 
     final_compile = dict(module.macros)
 
-    # (local-macros) expands to a dictionary of *variables*; Python's own scoping decides what they hold at run time. It shows
-    # the compile-time definitions when no class scope lies below the innermost scope and no two scopes on the stack ever
+    # (local-macros) expands to a dictionary of *variables*; Python's own scoping (and Hy's way of sharing a comprehension's
+    # variables with the enclosing function) decides what they hold at run time. They show the compile-time definitions when
+    # no class scope lies below the innermost scope and no two scopes anywhere inside the outermost enclosing scope ever
     # define the same name. Other places are outside what is checked here (the op is void there).
+    def inside(f, top):
+        while f is not None:
+            if f is top:
+                return True
+            f = f.parent
+        return False
+
     skip = set()
     for opi in pending_local:
         fr = at[opi]["stack"][1:]
         ok = not any(f.kind == "class" for f in fr[:-1])
-        seen = set()
-        for f in fr:
-            if seen & f.ever:
-                ok = False
-            seen |= f.ever
+        if fr:
+            seen = set()
+            for f in frames:
+                if inside(f, fr[0]):
+                    if seen & f.ever:
+                        ok = False
+                    seen |= f.ever
         if not ok:
             skip.add(opi)
             classes.add("void:local-macros where Python scoping hides the variable")
@@ -458,7 +471,8 @@ def build(case, prefix_filtered=False):
                 else:
                     b, hit = None, "none"
                 expect[rid] = b["v"] if b is not None else (CORE[key] if hit == "core" else "NameError")
-                want = ("eval-macros:" + op[2]) if hit == "eval-macros" else (label(b) if b is not None else hit)
+                # (a local macro handed over through (local-macros) is named by the construct that defined it)
+                want = "eval-macros:dict" if hit == "eval-macros" and op[2] == "dict" else (label(b) if b is not None else hit)
                 info[rid] = dict(kind="eval", name=n, key=key, opi=opi, want=want, hit=hit, stack=here["stack"], run_mod=dict(run_mod))
                 classes.add("eval(%s)->%s" % (op[2], hit))
                 if hit == "eval-macros" and (key in run_mod or key in CORE):
